@@ -190,7 +190,7 @@ def make_cases(rng, n_combos, nsteps, paths_per=2):
             c["path"] = gen_path(rng, pk, n, cfg["eps_y"], nsteps)
             L = len(c["path"])
             c["fd_steps"] = sorted(set([L - 1, L // 2] if pk != "huge" else [L - 1]))
-            c["fd_h"] = 2e-3 * cfg["eps_y"]
+            c["fd_h"] = (1e-2 if cfg["mode"] == "PS" else 2e-3) * cfg["eps_y"]
             # spectral-reducible configurations are also run with solver="newton" and compared
             c["compare_solver"] = (combo[0] in ("VonMises", "Hill") and combo[2] == "none" and combo[4] == 0)
             cases.append(c)
